@@ -124,3 +124,18 @@ func TestKFLines(t *testing.T) {
 		}
 	}
 }
+
+// TestArgAnyObjectAliased documents a genuine defect of the unchanged tree that is kept out of the workload:
+// an any-object argument is handed to the callee as it is, the callee's set() changes the host's value.
+func TestArgAnyObjectAliased(t *testing.T) {
+	o := valuni.AnyObjV(valuni.KV{K: "z", V: iv(1)})
+	pl := Payload{Variant: Variant{Order: 1, Init: "zero", FreshAny: true}, Limits: smallLimits, Reuse: true,
+		Ops: []Op{op("arg_any", o, sv("a"), iv(1)), op("arg_any", o, sv("b"), iv(2))}}
+	h := runHistory(pl)
+	for _, v := range h.viol {
+		t.Logf("%s: %s", v.sig, v.why)
+	}
+	if h.inconcl != "" {
+		t.Fatalf("inconclusive: %s", h.inconcl)
+	}
+}
